@@ -73,10 +73,12 @@ const (
 	fStall
 	fContinue100
 	fSilentCloseThenStall
+	fCloseAfterLastChunk
+	fCloseMidTrailer
 	nFaults
 )
 
-var faultNames = []string{"ok", "ok+Connection:close", "ok-then-silent-close", "close-before-first-byte", "close-mid-header", "close-mid-body", "stall-past-read-timeout", "100-continue-then-ok", "silent-180ms-then-close;stall-when-repeated"}
+var faultNames = []string{"ok", "ok+Connection:close", "ok-then-silent-close", "close-before-first-byte", "close-mid-header", "close-mid-body", "stall-past-read-timeout", "100-continue-then-ok", "silent-180ms-then-close;stall-when-repeated", "chunked-body-complete-then-close-before-the-final-CRLF", "chunked-body-complete-then-close-inside-a-trailer-line"}
 
 const (
 	readTimeout = 40 * time.Millisecond
@@ -393,6 +395,18 @@ func (w *world) peer(connID int, c net.Conn) {
 		case fCloseMidHeader:
 			c.Write([]byte("HTTP/1.1 200 OK\r\nContent-Le")) //nolint:errcheck
 			w.failed(connID, "the peer closed inside the header of the response to id="+id)
+			done()
+			return
+		case fCloseAfterLastChunk, fCloseMidTrailer:
+			// a chunked response whose body is complete; the peer closes where the trailer section
+			// should end (or inside a trailer line): the body may be delivered, the connection is dead
+			body := bodyOf(id, 0)
+			tail := "0\r\n"
+			if fault == fCloseMidTrailer {
+				tail = "0\r\nX-Sum: 12"
+			}
+			c.Write([]byte(fmt.Sprintf("HTTP/1.1 200 OK\r\nTransfer-Encoding: chunked\r\nTrailer: X-Sum\r\n\r\n%x\r\n%s\r\n%s", len(body), body, tail))) //nolint:errcheck
+			w.failed(connID, "the peer closed where the trailer section of the chunked response to id="+id+" should end")
 			done()
 			return
 		case fCloseMidBody:
@@ -776,6 +790,9 @@ func genPlan(t *rapid.T) *Plan {
 			}
 			if r.API == "" {
 				r.BodySize = rapid.SampledFrom([]int{0, 0, 0, 100, 8192, 8193, 10000, 20000}).Draw(t, "bodySize")
+				if r.Fault == fCloseAfterLastChunk || r.Fault == fCloseMidTrailer {
+					r.BodySize = 0
+				}
 				if r.Fault == fCloseMidBody {
 					// the peer sends half of the body: with 20000 or more the cut lies behind the 8 KiB that
 					// a streaming client reads before it hands the response to the caller
